@@ -39,15 +39,15 @@ PROPS["C18"] = {
     "level_text": "All 90/72/88 characters of a zone are symbolic bytes (full byte range). The SSA of MrzDecode/decodeTD1-3/verifyCheckdigit/calcCheckdigit/DecodeValue/ConvertMrzToMrzi/extractMrziTD1-3/buildMrzi/EncodeMrzi/encodeValue is executed symbolically next to an independent ICAO 9303 reference (check digit per 9303-3 §4.9, field positions per 9303-4/5/6, extended document numbers). z3 shows: accepted => every non-empty checked field (document number incl. every extended split, birth, expiry, TD3 optional data) and the composite carry the reference check digit; a zone over the ICAO alphabet with correct check digits (one concrete name) is accepted and every decoded field equals its character range with fillers removed; the key seed from the full MRZ equals the seed from the decoded fields re-encoded and equals number‖cd‖birth‖cd‖expiry‖cd. The per-character value functions of implementation and reference are compared by exhaustive 256-entry table evaluation (LUT canonicalisation), the rest by the solver.",
     "level_note": "Bounded/abstracted: ParseName is over-approximated in the soundness and route harnesses (may accept or reject) and concretised to one name in the completeness harness; quick tier restricts birth/expiry to digits in the route harness (thorough lifts it); strings of other lengths are not in this check (C12). The unset-field rule ('<' check digit on an all-filler field) is accepted behaviour. Password.Key (SHA-1 of the seed) is checked under C05. Trusted: gosym, models of strings.ReplaceAll/Trim*/Index/Repeat, strconv.Itoa for one-digit values, z3.",
     "bounds": "layouts TD1/TD2/TD3, every byte value at every position; extended document numbers with all 13 split positions; unwind 100",
-    "outside": "name-field parsing variety; zones of other lengths; quick tier: fillers inside the birth/expiry fields of the route harness",
+    "outside": "name-field parsing variety; zones of other lengths; fillers inside the birth/expiry fields of the route and field harnesses (dates restricted to digits there: the unrestricted variant did not finish in 30 minutes)",
     "assumptions": ["space is tolerated like the filler in check-digit computation (as the implementation documents)"],
     "jobs": [
         {"func": "verifH_C18_cd_step", "pkg": "mrz", "params": {"N": [0, 1, 2]}, "unwind": 64, "canon8": True, "expect_reach": ["step"]},
         {"func": "verifH_C18_sound", "pkg": "mrz", "params": {"layout": [1, 2, 3]}, "unwind": 100, "canon8": True, "stubs": ["mrz.ParseName:nondet"], "expect_reach": ["accepted", "rejected"]},
         {"func": "verifH_C18_complete", "pkg": "mrz", "params": {"layout": [1, 2], "extk": [2, 4]}, "params_thorough": {"extk": [2, 3, 4, 5, 6]}, "unwind": 100, "canon8": True, "expect_reach": ["extended"]},
         {"func": "verifH_C18_complete", "pkg": "mrz", "params": {"layout": [1, 2, 3], "extk": 0}, "unwind": 100, "canon8": True, "expect_reach": ["decoded"]},
-        {"func": "verifH_C18_fields", "pkg": "password", "params": {"layout": [1, 2, 3], "dates_digits": 1}, "params_thorough": {"dates_digits": 0}, "unwind": 100, "canon8": True, "stubs": ["mrz.ParseName:nondet"], "expect_reach": ["fields"]},
-        {"func": "verifH_C18_routes", "pkg": "mrz", "params": {"layout": [1, 2, 3], "dates_digits": 1}, "params_thorough": {"dates_digits": 0}, "unwind": 100, "canon8": True, "stubs": ["mrz.ParseName:nondet"], "expect_reach": ["re-encoded"]},
+        {"func": "verifH_C18_fields", "pkg": "password", "params": {"layout": [1, 2, 3], "dates_digits": 1}, "unwind": 100, "canon8": True, "stubs": ["mrz.ParseName:nondet"], "expect_reach": ["fields"]},
+        {"func": "verifH_C18_routes", "pkg": "mrz", "params": {"layout": [1, 2, 3], "dates_digits": 1}, "unwind": 100, "canon8": True, "stubs": ["mrz.ParseName:nondet"], "expect_reach": ["re-encoded"]},
     ],
 }
 
@@ -136,9 +136,6 @@ PROPS["C12"] = {
         {"func": "verifH_C12_doc_tpl", "pkg": "document", "params": {"M": [0, 1], "C": [1, 3, 8], "ctor": [1, 7, 11, 12, 16, 20]}, "params_thorough": {"M": [0, 1, 2]}, "unwind": 64, "expect_reach": ["returned"]},
     ],
 }
-
-PROPS["DBG"] = {"claimed": False, "patterns": ["./cryptoutils"], "harness": {"cryptoutils": ["cryptoutils/dbg.go"]}, "level_text": "", "level_note": "",
-    "jobs": [{"func": "verifH_dbg_parity", "pkg": "cryptoutils", "unwind": 300, "canon_all": True}]}
 
 PROPS["C11"] = {
     "patterns": ["./iso7816"],
@@ -250,10 +247,10 @@ _CA = "github.com/gmrtd/gmrtd/chipauth."
 PROPS["C14"] = {
     "patterns": ["./chipauth", "./verifier", "./pace"],
     "harness": {"chipauth": ["chipauth/c14.go"], "verifier": ["verifier/c14.go"], "pace": ["pace/c04ref.go", "pace/c04.go", "pace/c14.go"]},
-    "level_text": "Claimed in part. (1) Offline verifier: the real SSA of Verifier.Verify/WithAAChallenge with decoding, the three evidence verifications, passive authentication and the completeness check replaced by recording stubs with symbolic outcomes: each present evidence is verified exactly once over the imported document and its verdict/error recorded unchanged, passive authentication runs over the imported document, the completeness verdict is recorded, a supplied AA challenge that differs from the recorded nonce in any byte is a hard failure, verdict failures are not fatal. With C02 (verdict gating is a function of these session fields only) and C15 (export/import) this gives equality of live and offline verdicts given equal documents and evidence verdicts. (2) chipauth.VerifyEvidence on arbitrary evidence (fields absent / present with small lengths, counter field of 0..17 bytes, 3DES and AES), curve arithmetic and key decoding stubbed nondeterministically: never panics, errors for documents without DG14 / security infos, success returns the verified evidence and only after the captured protected response passed SecureMessaging.Decode (C03) with status 9000. (3) The counter: with Decode replaced by a recording stub, at its single call the session counter equals the recorded SmSsc minus one on the full counter width (all 8 / 16 bytes; 1 when none was recorded) and the argument is the captured response - so changing any byte of the recorded counter changes what is authenticated.",
-    "level_note": "Not applicable / outside: that evidence captured from a genuine session always verifies and that changing a single evidence field makes verification fail are statements about elliptic-curve arithmetic, ECDH and the KDF on real curves (crypto/elliptic, brainpool, math/big) which cannot be encoded here; pace.VerifyEvidence's chain and the AA signature (C07) likewise. CBOR serialisation between live and offline is C15. Harnesses with injected stubs cannot be replayed natively; the no-DG14 harness is replayable.",
+    "level_text": "Claimed in part. (1) Offline verifier: the real SSA of Verifier.Verify/WithAAChallenge with decoding, the three evidence verifications, passive authentication and the completeness check replaced by recording stubs with symbolic outcomes: each present evidence is verified exactly once over the imported document and its verdict/error recorded unchanged, passive authentication runs over the imported document, the completeness verdict is recorded, a supplied AA challenge that differs from the recorded nonce in any byte is a hard failure, verdict failures are not fatal. With C02 (verdict gating is a function of these session fields only) and C15 (export/import) this gives equality of live and offline verdicts given equal documents and evidence verdicts. (2) chipauth.VerifyEvidence on arbitrary evidence (fields absent / present with small lengths, counter field of 0..17 bytes, 3DES and AES), curve arithmetic and key decoding stubbed nondeterministically: never panics, errors for documents without DG14 / security infos, success returns the verified evidence and only after the captured protected response passed SecureMessaging.Decode (C03) with status 9000. (3) The counter: with Decode replaced by a recording stub, at its single call the session counter equals the recorded SmSsc minus one on the full counter width (all 8 / 16 bytes; 1 when none was recorded) and the argument is the captured response - so changing any byte of the recorded counter changes what is authenticated. (4) pace.VerifyEvidence over the abstract group of C04 with every evidence field arbitrary (cryptogram = encryption of an arbitrary plaintext): accepted exactly when the whole chain holds - stored terminal keys derived from the stored private keys (mapping key from G, agreement key from s·G + KA), chip keys group members and different from the terminal's, and KA(unpad(D(EcadIC)), PK_IC) = PK_Map,IC under KS.ENC from the recorded agreement; every field enters one of these equations. That evidence captured by a genuine CAM session verifies offline is asserted in C04's conforming run.",
+    "level_note": "Not applicable / outside: that evidence captured from a genuine session always verifies and that changing a single evidence field makes verification fail are statements about elliptic-curve arithmetic, ECDH and the KDF on real curves (crypto/elliptic, brainpool, math/big) which cannot be encoded here (decided instead over an abstract group with the module laws); the AA signature (C07) likewise. CBOR serialisation between live and offline is C15. Harnesses with injected stubs cannot be replayed natively; the no-DG14 harness is replayable.",
     "bounds": "all combinations of present/absent evidence kinds and verdicts; 8-byte challenge and nonce symbolic; evidence fields up to 4 bytes, counter field up to 17 bytes",
-    "outside": "elliptic-curve level validity of evidence; PACE-CAM evidence chain",
+    "outside": "elliptic-curve arithmetic of the real curves",
     "assumptions": [],
     "jobs": [
         {"func": "verifH_C14_ca_nodg14", "pkg": "chipauth", "unwind": 64, "expect_reach": ["returned"]},
@@ -279,8 +276,8 @@ PROPS["C14"] = {
 PROPS["C01"] = {
     "patterns": ["./passiveauth", "./cms"],
     "harness": {"passiveauth": ["passiveauth/c01.go"], "cms": ["cms/c01.go", "cms/c01chain.go"]},
-    "level_text": "Claimed in part: the composition (accept implies every required check passed), not the primitives. The real SSA of passiveauth.PassiveAuth, validateDgHashes, countryCscaCerts, alpha2CountryCode, Document.DgHashes/DgHash and SOD.DgHash is executed over a symbolic document: DG1/DG2/DG14 present or absent with symbolic raw bytes, EF.SOD present or absent with a hash list of up to 2 entries whose numbers range over {1,2,14,3} and whose values are H(raw) XOR an arbitrary delta or empty, CardSecurity present or absent; the outcome of SignedData.Verify for SOD and CardSecurity, the signer country, the DG1 country (incl. letter case and resolution errors) and the number of trust anchors of that country are symbolic. z3 shows: Success implies EF.SOD present, at least one anchor of the signer's country (the store is asked for exactly that country), signer country = DG1 country when DG1 is present, SOD.Verify returned no error against those anchors, CardSecurity (when present) verified against the same anchors and its verdict is recorded only then, and every present data group has a first hash-list entry for its number that is non-empty and equals the hash of the raw bytes (delta = 0) - a data group missing from the list is rejected as injection. Should PassiveAuth use the *WithConfig entry point, the configuration must arrive without a reference time (the signing time cached while verifying one object is not reused for the other).",
-    "level_note": "Not applicable to this technique: signature verification (RSA/ECDSA/PSS, brainpool), X.509/CMS decoding (encoding/asn1 reflection), the chain building inside SignedData.Verify/Certificate.Verify and the pool look-ups; hence 'no byte-level mutation of a genuine SOD passes' is not a solver result here. SignerInfo/Certificate.VerifyWithConfig gating is not yet encoded. The harness cannot be replayed natively (stubs injected by the engine).",
+    "level_text": "Claimed in part: the composition (accept implies every required check passed), not the primitives. The real SSA of passiveauth.PassiveAuth, validateDgHashes, countryCscaCerts, alpha2CountryCode, Document.DgHashes/DgHash and SOD.DgHash is executed over a symbolic document: DG1/DG2/DG14 present or absent with symbolic raw bytes, EF.SOD present or absent with a hash list of up to 2 entries whose numbers range over {1,2,14,3} and whose values are H(raw) XOR an arbitrary delta or empty, CardSecurity present or absent; the outcome of SignedData.Verify for SOD and CardSecurity, the signer country, the DG1 country (incl. letter case and resolution errors) and the number of trust anchors of that country are symbolic. z3 shows: Success implies EF.SOD present, at least one anchor of the signer's country (the store is asked for exactly that country), signer country = DG1 country when DG1 is present, SOD.Verify returned no error against those anchors, CardSecurity (when present) verified against the same anchors and its verdict is recorded only then, and every present data group has a first hash-list entry for its number that is non-empty and equals the hash of the raw bytes (delta = 0) - a data group missing from the list is rejected as injection. Signer gating (package cms): SignerInfo.VerifyWithConfig with attribute preparation, hashing, certificate selection, extension/validity checks, VerifySignature and Certificate.VerifyWithConfig as recording oracles: a chain is returned only if every gate passed, the signature was verified once with the selected certificate's key over the digest of the prepared data, validity and chain are evaluated at the object's own signing time (or the caller's reference time) and the chain is built from exactly the pool the caller passed. Issuer gating: Certificate.VerifyWithConfig / verifyParentCandidate over 0..2 candidates returned by the pool with every extension decoder, validity check and signature check an arbitrary oracle: accepted exactly when the certificate's own checks pass and some candidate is an admissible CA (no unrecognised critical extension, basicConstraints CA, keyCertSign, critical-EKU rule, valid at the reference time) whose key verifies the signature over the certificate digest; the first such candidate is recorded; candidates are looked up by the authority key identifier. Should PassiveAuth use the *WithConfig entry point, the configuration must arrive without a reference time (the signing time cached while verifying one object is not reused for the other).",
+    "level_note": "Not applicable to this technique: signature verification (RSA/ECDSA/PSS, brainpool), X.509/CMS decoding (encoding/asn1 reflection), the extension decoders and the pool look-ups (all replaced by oracles); hence 'no byte-level mutation of a genuine SOD passes' is not a solver result here - what is decided is that acceptance implies every gate of the three layers (PassiveAuth, SignerInfo, Certificate) answered yes for the right operands. The harness cannot be replayed natively (stubs injected by the engine).",
     "bounds": "3 data groups, hash list of up to 2 entries, 32-byte digests (uninterpreted SHA-256), 0..2 anchors",
     "outside": "cms package internals; more data groups (the loop over hashable ids is the same code)",
     "assumptions": ["SHA-256 as an uninterpreted function"],
@@ -328,11 +325,11 @@ PROPS["C20"] = {
 PROPS["C06"] = {
     "patterns": ["./chipauth"],
     "harness": {"chipauth": ["chipauth/c14.go", "chipauth/c06.go", "chipauth/c06b.go", "chipauth/c06ref.go", "chipauth/c06ca.go"]},
-    "level_text": "Claimed in part: the two mechanisms of chip authentication that are integer/byte code. (1) Parameter and key selection: the real SSA of selectChipAuthParams, resolveCAInfo, selectCAPubKeyInfo, inferCAInfoFromKey and the algorithm table is executed on security infos built directly (0..2 ChipAuthenticationInfos over all 8 suites with key id absent/1/2, 0..2 public keys DH/ECDH with key id absent/1/2, all symbolic) and compared with a reference selection: never panics, picks the info of maximal weight, the first key of that suite's key-agreement type whose id matches when the info names one, fails only when no such key exists, infers the suite from the first key only when no info is present. (2) Session keys: the real SSA of deriveSessionKeys, cryptoutils.EcDhSharedSecret, KDF, DesKeyAdjustParity with the ECDH point multiplication replaced by a stub returning an arbitrary x-coordinate (big.Int modelled as sign+magnitude bit-vectors): KS.ENC/KS.MAC = KDF(x as an octet string of exactly the field length, 1/2) for every value of x, including the 1/256 slice with leading zero octets (asserted reachable and explicitly forced).",
-    "level_note": "Not applicable to this technique: that a conforming chip holding the key is always accepted and a chip without it never (elliptic-curve scalar multiplication over P-192..P-521/brainpool in math/big and crypto/elliptic, explicit-parameter decoding through encoding/asn1) and the CAM check KA(CA_IC, PK_IC) = PK_Map. The step 'success only after a protected exchange under the new keys' reduces to SecureMessaging.Decode's acceptance condition (C03) and is exercised on evidence in C14; the restarted counter is part of C14's VerifyEvidence harness (SmSsc length) and C10. The shared-secret harness uses an injected stub and is not replayed natively; the leading-zero defect it found was reproduced natively on P-256 (known_findings.json).",
-    "bounds": "selection: up to 2 infos and 2 keys, key ids in {absent,1,2}; shared secret: field length 32 bytes quick (24, 28, 32, 48, 64, 66 thorough), 3DES and AES-128 quick (+192/256 thorough)",
+    "level_text": "Claimed in part: the two mechanisms of chip authentication that are integer/byte code. (1) Parameter and key selection: the real SSA of selectChipAuthParams, resolveCAInfo, selectCAPubKeyInfo, inferCAInfoFromKey and the algorithm table is executed on security infos built directly (0..2 ChipAuthenticationInfos over all 8 suites with key id absent/1/2, 0..2 public keys DH/ECDH with key id absent/1/2, all symbolic) and compared with a reference selection: never panics, picks the info of maximal weight, the first key of that suite's key-agreement type whose id matches when the info names one, fails only when no such key exists, infers the suite from the first key only when no info is present. (2) Session keys: the real SSA of deriveSessionKeys, cryptoutils.EcDhSharedSecret, KDF, DesKeyAdjustParity with the ECDH point multiplication replaced by a stub returning an arbitrary x-coordinate (big.Int modelled as sign+magnitude bit-vectors): KS.ENC/KS.MAC = KDF(x as an octet string of exactly the field length, 1/2) for every value of x, including the 1/256 slice with leading zero octets (asserted reachable and explicitly forced). (3) Protocol: the real SSA of ChipAuth.DoChipAuth, executeCA, doCaEcdh, doMseSetAT, doMseSetKAT, doGeneralAuthenticate, deriveSessionKeys, NfcSession.MseSetAT/GeneralAuthenticate/SelectEF/DoAPDU, SecureMessaging.Encode/Decode against a reference chip written from ICAO 9303-11 §6.2 over the abstract group of C04 (generator, static key, terminal ephemeral scalar symbolic): a chip holding the key receives the protocol OID / key id / ephemeral public key in the right commands (MSE:Set AT + GENERAL AUTHENTICATE, or MSE:Set KAT when the 3DES suite was inferred), accepts the protected SELECT EF.DG14 probe computed independently under its own keys with the counter restarted at zero, and chip authentication succeeds with KS.ENC = KDF(fixed-width x, 1), counter 2 and the evidence recording terminal key, probe response and counter; a chip that answers the probe with any protected status and MAC = expected XOR delta is reported successful only if delta = 0 (MAC under the keys from KA(ephemeral key, PK_IC)) and the status is 9000.",
+    "level_note": "Not applicable to this technique: that a conforming chip holding the key is always accepted and a chip without it never (elliptic-curve scalar multiplication over P-192..P-521/brainpool in math/big and crypto/elliptic, explicit-parameter decoding through encoding/asn1) (the CAM check KA(CA_IC, PK_IC) = PK_Map is decided over the abstract group in C04). 'A chip without the key is never accepted' holds up to the idealisation of the MAC: what is decided is that acceptance requires the MAC under keys derived from the terminal's ephemeral private key and PK_IC. The shared-secret harness uses an injected stub and is not replayed natively; the leading-zero defect it found was reproduced natively on P-256 (known_findings.json).",
+    "bounds": "selection: up to 2 infos and 2 keys, key ids in {absent,1,2}; shared secret: field length 32 bytes quick (24, 28, 32, 48, 64, 66 thorough), 3DES and AES-128 quick (+192/256 thorough); protocol: field 32 octets, suites 3DES / AES-128 / inferred-3DES (thorough: 24 and 66 octets, + AES-256), key id absent / present",
     "outside": "EC arithmetic, DH (finite-field) chip authentication, key decoding, more than 2 infos/keys",
-    "assumptions": ["SHA-1/SHA-256 as uninterpreted functions", "DoEcDh returns an arbitrary point (stub)"],
+    "assumptions": ["SHA-1/SHA-256 as uninterpreted functions", "DoEcDh returns an arbitrary point (stub, shared-secret harness)", "scalar multiplication forms a Z-module (protocol harness)", "block ciphers are permutations per key; CMAC uninterpreted"],
     "jobs": [
         {"func": "verifH_C06_select", "pkg": "chipauth", "params": {"infos": [0, 1, 2], "keys": [0, 1, 2]}, "unwind": 64, "expect_reach": ["selected"]},
         {"func": "verifH_C06_secret", "pkg": "chipauth", "params": {"fieldbytes": [32], "aes": [0, 128], "leadzero": [0, 1]}, "params_thorough": {"fieldbytes": [24, 28, 32, 48, 64, 66], "aes": [0, 128, 192, 256]},
@@ -349,7 +346,7 @@ _C04_REDIR = {"github.com/gmrtd/gmrtd/pace.standardisedDomainParams": "verifStub
 PROPS["C04"] = {
     "patterns": ["./pace"],
     "harness": {"pace": ["pace/c04ref.go", "pace/c04.go"]},
-    "level_text": "Claimed in part: the protocol logic of PACE generic mapping / chip-authentication mapping, with the elliptic curve replaced by an abstract group. The real SSA of Pace.DoPACE, selectPaceConfig, paceConfigGetByOID, keyForPassword, doApduMseSetAT, getNonce, decryptNonce, doGenericMappingGmCam, mapNonceGmEcDh, doGenericMappingEC, keyAgreementGmEcDh, mutualAuthGmEcDh, computeAuthTokens, computeAuthToken, encodePubicKeyTemplate7F49, encode/decodeDynAuthData, doCamEcdh, decryptEcadIC, icPubKeyECForCAM, cryptoutils.KDF/DesKeyAdjustParity/CryptCBC/ISO9797RetailMacDes/ISO9797Method2Pad/Unpad/EncodeX962EcPoint/DecodeX962EcPoint/DoEcDh/EcDhSharedSecret/EcPoint.Equal, crypto/elliptic.Marshal/Unmarshal, Password.Key/Type, NfcSession.MseSetAT/GeneralAuthenticate/DoAPDU, NewSecureMessaging is executed against a reference chip written from ICAO 9303-11 §4.4 (plain byte code behind a Transceiver). The curve handed to the code is an abstract Z-module: points are 2n-octet strings, scalar multiplication and addition are uninterpreted functions kept in the normal form that expresses a(bP) = b(aP) and P+Q = Q+P, membership an uninterpreted predicate; generator, nonce, all four ephemeral scalars, the chip's static key and CA data, the password (24-byte MRZ information or 6-digit CAN) are symbolic. z3 shows: (1) conforming chip, same password: MSE:Set AT names protocol, password type and parameter id; four GENERAL AUTHENTICATE commands with the right data objects, chained except the last; the chip accepts the terminal's token; PACE succeeds; both sides hold KDF(fixed-width x-coordinate of the agreed point, 1/2) with the counter at zero; for CAM the mapping is reported successful and the evidence records every captured value - for 3DES, AES-128 (thorough: all seven suites) and for MRZ and CAN passwords. (2) Error status at any of the five steps, or a response lacking its data object: PACE fails, no secure messaging, no CAM result. (3) Every chip value arbitrary (nonce cryptogram, mapping key, agreement key, token = expected XOR arbitrary delta): success implies delta = 0 for the token over the terminal's own agreement key under keys from the terminal's own agreement, both chip keys are group members and differ from the terminal's, installed keys/counter as derived; failure leaves no secure messaging. (4) Conforming chip whose encrypted CA data is arbitrary: CAM is reported successful exactly when the plaintext is correctly padded and KA(CA_IC, PK_IC) = PK_Map,IC. (5) selectPaceConfig on up to 2 PACEInfos over all 19 table entries, an unknown OID and parameter ids absent / 2 / 8 / 18 / 19: never panics, picks the known entry of maximal preference, errors only if none or its parameter id is missing/unsupported; whenever a supported suite is advertised (and ECDH entries carry EC parameter ids) a supported one is chosen.",
+    "level_text": "Claimed in part: the protocol logic of PACE generic mapping / chip-authentication mapping, with the elliptic curve replaced by an abstract group. The real SSA of Pace.DoPACE, selectPaceConfig, paceConfigGetByOID, keyForPassword, doApduMseSetAT, getNonce, decryptNonce, doGenericMappingGmCam, mapNonceGmEcDh, doGenericMappingEC, keyAgreementGmEcDh, mutualAuthGmEcDh, computeAuthTokens, computeAuthToken, encodePubicKeyTemplate7F49, encode/decodeDynAuthData, doCamEcdh, decryptEcadIC, icPubKeyECForCAM, cryptoutils.KDF/DesKeyAdjustParity/CryptCBC/ISO9797RetailMacDes/ISO9797Method2Pad/Unpad/EncodeX962EcPoint/DecodeX962EcPoint/DoEcDh/EcDhSharedSecret/EcPoint.Equal, crypto/elliptic.Marshal/Unmarshal, Password.Key/Type, NfcSession.MseSetAT/GeneralAuthenticate/DoAPDU, NewSecureMessaging is executed against a reference chip written from ICAO 9303-11 §4.4 (plain byte code behind a Transceiver). The curve handed to the code is an abstract Z-module: points are 2n-octet strings, scalar multiplication and addition are uninterpreted functions kept in the normal form that expresses a(bP) = b(aP) and P+Q = Q+P, membership an uninterpreted predicate; generator, nonce, all four ephemeral scalars, the chip's static key and CA data, the password (24-byte MRZ information or 6-digit CAN) are symbolic. z3 shows: (1) conforming chip, same password: MSE:Set AT names protocol, password type and parameter id; four GENERAL AUTHENTICATE commands with the right data objects, chained except the last; the chip accepts the terminal's token; PACE succeeds; both sides hold KDF(fixed-width x-coordinate of the agreed point, 1/2) with the counter at zero; for CAM the mapping is reported successful, the evidence records every captured value and pace.VerifyEvidence accepts it offline - for 3DES, AES-128 (thorough: all seven suites) and for MRZ and CAN passwords. (2) Error status at any of the five steps, or a response lacking its data object: PACE fails, no secure messaging, no CAM result. (3) Every chip value arbitrary (nonce cryptogram, mapping key, agreement key, token = expected XOR arbitrary delta): success implies delta = 0 for the token over the terminal's own agreement key under keys from the terminal's own agreement, both chip keys are group members and differ from the terminal's, installed keys/counter as derived; failure leaves no secure messaging. (4) Conforming chip whose encrypted CA data is arbitrary: CAM is reported successful exactly when the plaintext is correctly padded and KA(CA_IC, PK_IC) = PK_Map,IC. (5) selectPaceConfig on up to 2 PACEInfos over all 19 table entries, an unknown OID and parameter ids absent / 2 / 8 / 18 / 19: never panics, picks the known entry of maximal preference, errors only if none or its parameter id is missing/unsupported; whenever a supported suite is advertised (and ECDH entries carry EC parameter ids) a supported one is chosen.",
     "level_note": "Not applicable to this technique: the arithmetic of the eleven standardised curves (crypto/elliptic, brainpool, math/big) - the check shows that gmrtd's use of the group operations, ciphers, MACs and hashes equals ICAO's for every group with the module laws, not that P-256 is one. 'A different password makes PACE fail' and 'an altered value makes the token mismatch' hold only up to collisions of the idealised primitives; what is decided is the acceptance condition (3). standardisedDomainParams is replaced by a stub that hands out the abstract group for ids 8..18 (its table is a plain switch). Harness with injected stubs: not replayed natively; the leading-zero shared-secret defect it depends on (fixed in fb87c02) was reproduced natively (see C06). The normal form orders scalars by term identity; two different writings of one scalar could lose the law and raise an alarm (never hide a violation) - value ordering was tried and is beyond z3 (unknown at 60 s).",
     "bounds": "field size 32 octets and a 3-octet toy field quick (3, 24 and 66 thorough; 66 with a 521-bit size); 16-byte nonce; suites 3DES, AES-128, CAM-AES-128 quick (all 7 thorough); encrypted CA data of 16 bytes; group elements with an all-zero coordinate excluded; up to 2 PACEInfos",
     "outside": "curve arithmetic; PACE-IM and DH (not implemented by gmrtd); more than one fault per run; extended-length APDUs",
@@ -373,6 +370,3 @@ PROPS["C04"] = {
          "unwind": 400, "no_replay": True, "canon_all": True, "redirect": _C04_REDIR, "timeout_ms": 60000, "expect_reach": ["ran", "ecad-only", "cam-success", "cam-failure"]},
     ],
 }
-
-PROPS["DBG2"] = {"claimed": False, "patterns": ["./pace"], "harness": {"pace": ["pace/c04ref.go", "pace/c04.go", "pace/dbg.go"]}, "level_text": "", "level_note": "",
-    "jobs": [{"func": "verifH_dbg_group", "pkg": "pace", "unwind": 300}]}
